@@ -1,3 +1,386 @@
 package main
 
-func typesMain(args []string) {}
+// C14 (part 1): type equivalence is lawful; aliases are transparent, definitions opaque.
+// The closure of the base types under list-of / alias-of / definition-of (two sibling
+// aliases and two sibling definitions per operand) is built with the real constructors of ddptypes. The oracle is a
+// canonical form computed from the harness's *own* construction terms (it never looks into
+// the ddptypes values and never calls GetUnderlying/TrueUnderlying): aliases are stripped
+// everywhere, lists are structural, definitions and Kombinationen are nominal by identity.
+
+import (
+	"flag"
+	"fmt"
+	"strings"
+
+	"github.com/DDP-Projekt/Kompilierer/src/ddptypes"
+)
+
+type tyNode struct {
+	kind   byte // 'p' primitive, 'v' Variable, 'k' Kombination, 'l' list, 'a' alias, 'd' definition
+	name   string
+	child  int // index of the operand node, -1 for base types
+	id     int // identity of k / a / d nodes
+	depth  int
+	typ    ddptypes.Type
+	term   string // construction term (for dumps and the Python re-judge)
+	canon  string // aliases stripped everywhere; d and k nominal; lists structural
+	canon2 string // aliases and definitions stripped everywhere (DeepEqual's documented meaning)
+	canonT string // TrueUnderlying's documented meaning: a/d stripped at the top, inside lists only aliases
+}
+
+type tyStats struct {
+	Types         int            `json:"types"`
+	Depth         int            `json:"depth"`
+	ByKind        map[string]int `json:"types_by_kind"`
+	CanonClasses  int            `json:"canon_classes"`
+	Pairs         int            `json:"pairs"`
+	PairsEqual    int            `json:"pairs_equal"`
+	PairsDeep     int            `json:"pairs_deep_equal"`
+	RealCalls     int            `json:"real_predicate_calls"`
+	AliasTarget   int            `json:"alias_target_pairs"`
+	DefBase       int            `json:"definition_base_pairs"`
+	DefSibling    int            `json:"definition_sibling_pairs"`
+	UnaryLaws     int            `json:"unary_law_evaluations"`
+	Congruence    int            `json:"congruence_evaluations"`
+	Triples       int            `json:"triples"`
+	TriplesPrem   int            `json:"triples_with_premise"`
+	TriplesPremD  int            `json:"triples_with_premise_deep"`
+	Bad           int            `json:"bad"`
+	BadByLaw      map[string]int `json:"bad_by_law"`
+	SamplesDumped int            `json:"samples_dumped"`
+}
+
+type tyBad struct {
+	Law  string `json:"law"`
+	A    string `json:"a"`
+	B    string `json:"b,omitempty"`
+	C    string `json:"c,omitempty"`
+	Got  string `json:"got"`
+	Want string `json:"want"`
+}
+
+type tySample struct {
+	A     string `json:"a"`
+	B     string `json:"b"`
+	Equal bool   `json:"equal"`
+	Deep  bool   `json:"deep"`
+	NumA  bool   `json:"num_a"`
+	ListA bool   `json:"list_a"`
+	DefA  bool   `json:"def_a"`
+}
+
+func buildClosure(depth int) []*tyNode {
+	var nodes []*tyNode
+	nextID := 0
+	add := func(n *tyNode) {
+		nodes = append(nodes, n)
+	}
+	prims := []ddptypes.PrimitiveType{ddptypes.ZAHL, ddptypes.KOMMAZAHL, ddptypes.BYTE, ddptypes.WAHRHEITSWERT, ddptypes.BUCHSTABE, ddptypes.TEXT}
+	for _, p := range prims {
+		c := "P:" + p.String()
+		add(&tyNode{kind: 'p', name: p.String(), child: -1, typ: p, term: c, canon: c, canon2: c, canonT: c})
+	}
+	add(&tyNode{kind: 'v', name: "Variable", child: -1, typ: ddptypes.VARIABLE, term: "V", canon: "V", canon2: "V", canonT: "V"})
+	// two Kombinationen with the same name and the same fields, declared twice (as two modules would)
+	for i := 0; i < 2; i++ {
+		nextID++
+		st := &ddptypes.StructType{Name: "Punkt", GramGender: ddptypes.MASKULIN,
+			Fields: []ddptypes.StructField{{Name: "x", Type: ddptypes.ZAHL}, {Name: "y", Type: ddptypes.TEXT}}}
+		c := fmt.Sprintf("S#%d", nextID)
+		add(&tyNode{kind: 'k', name: "Punkt", child: -1, id: nextID, typ: st, term: c, canon: c, canon2: c, canonT: c})
+	}
+	lo, hi := 0, len(nodes)
+	genders := []ddptypes.GrammaticalGender{ddptypes.MASKULIN, ddptypes.FEMININ, ddptypes.NEUTRUM}
+	for d := 1; d <= depth; d++ {
+		for i := lo; i < hi; i++ {
+			b := nodes[i]
+			// list-of
+			add(&tyNode{kind: 'l', child: i, depth: d, typ: ddptypes.ListType{ElementType: b.typ},
+				term: "L(" + b.term + ")", canon: "L(" + b.canon + ")", canon2: "L(" + b.canon2 + ")", canonT: "L(" + b.canon + ")"})
+			// alias-of, twice (two aliases of one target are equivalent to each other)
+			for s := 0; s < 2; s++ {
+				nextID++
+				add(&tyNode{kind: 'a', child: i, id: nextID, depth: d,
+					typ:  &ddptypes.TypeAlias{Name: fmt.Sprintf("Name%d", s), Underlying: b.typ, GramGender: genders[nextID%3]},
+					term: fmt.Sprintf("A#%d(%s)", nextID, b.term), canon: b.canon, canon2: b.canon2, canonT: b.canonT})
+			}
+			// definition-of, twice (siblings of the same base, same printed name)
+			for s := 0; s < 2; s++ {
+				nextID++
+				c := fmt.Sprintf("D#%d", nextID)
+				add(&tyNode{kind: 'd', child: i, id: nextID, depth: d,
+					typ:  &ddptypes.TypeDef{Name: "Nummer", Underlying: b.typ, GramGender: genders[nextID%3]},
+					term: fmt.Sprintf("D#%d(%s)", nextID, b.term), canon: c, canon2: b.canon2, canonT: b.canonT})
+			}
+		}
+		lo, hi = hi, len(nodes)
+	}
+	return nodes
+}
+
+// structural description of a ddptypes value as produced by the code under test, using the
+// identity table of the closure (pointer -> id); used to judge GetUnderlying / TrueUnderlying results
+func describe(t ddptypes.Type, ids map[any]string) string {
+	switch v := t.(type) {
+	case ddptypes.PrimitiveType:
+		return "P:" + v.String()
+	case ddptypes.Variable:
+		return "V"
+	case ddptypes.ListType:
+		return "L(" + describe(v.ElementType, ids) + ")"
+	case *ddptypes.StructType:
+		if s, ok := ids[v]; ok {
+			return s
+		}
+		return "S#?"
+	case *ddptypes.TypeDef:
+		if s, ok := ids[v]; ok {
+			return s
+		}
+		return "D#?"
+	case *ddptypes.TypeAlias:
+		return "ALIAS!" // must never remain after stripping
+	case nil:
+		return "<nil>"
+	}
+	return fmt.Sprintf("<%T>", t)
+}
+
+func typesMain(args []string) {
+	fs := flag.NewFlagSet("types", flag.ExitOnError)
+	depth := fs.Int("depth", 2, "closure depth")
+	doPairs := fs.Bool("pairs", false, "pair and unary laws")
+	doTriples := fs.Bool("triples", false, "transitivity over all triples")
+	part := fs.Int("part", 0, "partition of the triple sweep (first component)")
+	parts := fs.Int("parts", 1, "number of partitions")
+	sample := fs.Int("sample", 0, "dump this many seeded raw pair observations for the independent re-judge")
+	seed := fs.Uint64("seed", 0, "seed of the sample")
+	fs.Parse(args)
+
+	begin("types")
+	nodes := buildClosure(*depth)
+	n := len(nodes)
+	st := &tyStats{Types: n, Depth: *depth, ByKind: map[string]int{}, BadByLaw: map[string]int{}}
+	classes := map[string]bool{}
+	ids := map[any]string{}
+	for _, nd := range nodes {
+		st.ByKind[string(nd.kind)]++
+		classes[nd.canon] = true
+		switch nd.kind {
+		case 'k', 'd':
+			ids[nd.typ] = nd.canon
+		}
+	}
+	st.CanonClasses = len(classes)
+	emitted := map[string]int{}
+	bad := func(law string, a, b, c *tyNode, got, want string) {
+		st.Bad++
+		st.BadByLaw[law]++
+		emitted[law]++
+		if emitted[law] <= 8 {
+			r := tyBad{Law: law, A: a.term, Got: got, Want: want}
+			if b != nil {
+				r.B = b.term
+			}
+			if c != nil {
+				r.C = c.term
+			}
+			emit("BAD", r)
+		}
+	}
+	bs := func(b bool) string {
+		if b {
+			return "true"
+		}
+		return "false"
+	}
+
+	// the relation as the real code computes it, evaluated twice in two different orders
+	// (a relation on types must not depend on evaluation history)
+	eq := make([][]bool, n)
+	deep := make([][]bool, n)
+	for i := range eq {
+		eq[i] = make([]bool, n)
+		deep[i] = make([]bool, n)
+		for j := 0; j < n; j++ {
+			eq[i][j] = ddptypes.Equal(nodes[i].typ, nodes[j].typ)
+			deep[i][j] = ddptypes.DeepEqual(nodes[i].typ, nodes[j].typ)
+			st.RealCalls += 2
+		}
+	}
+
+	if *doPairs {
+		for j := n - 1; j >= 0; j-- {
+			for i := n - 1; i >= 0; i-- {
+				if e := ddptypes.Equal(nodes[i].typ, nodes[j].typ); e != eq[i][j] {
+					bad("Equal is a function of its arguments (same result when re-evaluated)", nodes[i], nodes[j], nil, bs(e), bs(eq[i][j]))
+				}
+				st.RealCalls++
+			}
+		}
+		for i, a := range nodes {
+			// reflexivity
+			if !eq[i][i] {
+				bad("Equal reflexive", a, nil, nil, "false", "true")
+			}
+			if !deep[i][i] {
+				bad("DeepEqual reflexive", a, nil, nil, "false", "true")
+			}
+			// unary predicates against the canonical form
+			st.UnaryLaws++
+			c := a.canon
+			isNum := c == "P:Zahl" || c == "P:Kommazahl" || c == "P:Byte"
+			chk := func(law string, got, want bool) {
+				if got != want {
+					bad(law, a, nil, nil, bs(got), bs(want))
+				}
+			}
+			chk("IsNumeric iff equivalent to Zahl, Kommazahl or Byte", ddptypes.IsNumeric(a.typ), isNum)
+			chk("IsList iff equivalent to a list type", ddptypes.IsList(a.typ), strings.HasPrefix(c, "L("))
+			chk("IsPrimitive iff equivalent to a primitive type", ddptypes.IsPrimitive(a.typ), strings.HasPrefix(c, "P:"))
+			chk("IsStruct iff equivalent to a Kombination", ddptypes.IsStruct(a.typ), strings.HasPrefix(c, "S#"))
+			chk("IsAny iff equivalent to Variable", ddptypes.IsAny(a.typ), c == "V")
+			chk("IsTypeDef iff equivalent to a definition", ddptypes.IsTypeDef(a.typ), strings.HasPrefix(c, "D#"))
+			chk("IsTypeAlias iff declared as alias", ddptypes.IsTypeAlias(a.typ), a.kind == 'a')
+			chk("IsVoid never for a value type", ddptypes.IsVoid(a.typ), false)
+			u := ddptypes.GetUnderlying(a.typ)
+			if d := describe(u, ids); d != c {
+				bad("GetUnderlying strips exactly the aliases (everywhere)", a, nil, nil, d, c)
+			}
+			if d := describe(ddptypes.GetUnderlying(u), ids); d != c {
+				bad("GetUnderlying idempotent", a, nil, nil, d, c)
+			}
+			if !ddptypes.Equal(a.typ, u) || !ddptypes.Equal(u, a.typ) {
+				bad("a type is equivalent to its GetUnderlying", a, nil, nil, "false", "true")
+			}
+			if d := describe(ddptypes.TrueUnderlying(a.typ), ids); d != a.canonT {
+				bad("TrueUnderlying strips aliases and definitions at the top (documented examples)", a, nil, nil, d, a.canonT)
+			}
+			// structural laws of the constructors
+			if a.child >= 0 {
+				b := nodes[a.child]
+				switch a.kind {
+				case 'a':
+					st.AliasTarget++
+					if !eq[i][a.child] || !eq[a.child][i] {
+						bad("alias equivalent to its target", a, b, nil, "false", "true")
+					}
+				case 'd':
+					st.DefBase++
+					if eq[i][a.child] || eq[a.child][i] {
+						bad("definition not equivalent to its base", a, b, nil, "true", "false")
+					}
+					if !deep[i][a.child] {
+						bad("DeepEqual sees through definitions", a, b, nil, "false", "true")
+					}
+				}
+			}
+			for j, b := range nodes {
+				st.Pairs++
+				want := a.canon == b.canon
+				if eq[i][j] != want {
+					bad("Equal iff same canonical form", a, b, nil, bs(eq[i][j]), bs(want))
+				}
+				if eq[i][j] != eq[j][i] {
+					bad("Equal symmetric", a, b, nil, bs(eq[i][j]), bs(eq[j][i]))
+				}
+				want2 := a.canon2 == b.canon2
+				if deep[i][j] != want2 {
+					bad("DeepEqual iff same form with aliases and definitions stripped", a, b, nil, bs(deep[i][j]), bs(want2))
+				}
+				if deep[i][j] != deep[j][i] {
+					bad("DeepEqual symmetric", a, b, nil, bs(deep[i][j]), bs(deep[j][i]))
+				}
+				if eq[i][j] && !deep[i][j] {
+					bad("Equal implies DeepEqual", a, b, nil, "false", "true")
+				}
+				if eq[i][j] {
+					st.PairsEqual++
+				}
+				if deep[i][j] {
+					st.PairsDeep++
+				}
+				// sibling definitions of one base / definitions of equivalent bases
+				if a.kind == 'd' && b.kind == 'd' && i != j && nodes[a.child].canon == nodes[b.child].canon {
+					st.DefSibling++
+					if eq[i][j] {
+						bad("two definitions of the same base are distinct", a, b, nil, "true", "false")
+					}
+				}
+				// lists are structural: list(a) ~ list(b) iff a ~ b  (evaluated on the real constructors)
+				if a.depth < *depth && b.depth < *depth {
+					le := ddptypes.Equal(ddptypes.ListType{ElementType: a.typ}, ddptypes.ListType{ElementType: b.typ})
+					st.RealCalls++
+					if le != eq[i][j] {
+						bad("list(a) equivalent to list(b) iff a equivalent to b", a, b, nil, bs(le), bs(eq[i][j]))
+					}
+				}
+				// predicates that claim to respect aliases are congruent w.r.t. equivalence
+				if eq[i][j] && i < j {
+					st.Congruence++
+					if ddptypes.IsNumeric(a.typ) != ddptypes.IsNumeric(b.typ) || ddptypes.IsList(a.typ) != ddptypes.IsList(b.typ) ||
+						ddptypes.IsPrimitive(a.typ) != ddptypes.IsPrimitive(b.typ) || ddptypes.IsStruct(a.typ) != ddptypes.IsStruct(b.typ) ||
+						ddptypes.IsAny(a.typ) != ddptypes.IsAny(b.typ) || ddptypes.IsTypeDef(a.typ) != ddptypes.IsTypeDef(b.typ) {
+						bad("Is* predicates agree on equivalent types", a, b, nil, "differ", "agree")
+					}
+					if !ddptypes.Equal(ddptypes.GetListElementType(a.typ), ddptypes.GetListElementType(b.typ)) {
+						bad("element types of equivalent types are equivalent", a, b, nil, "false", "true")
+					}
+				}
+				for _, r1 := range []bool{false, true} {
+					for _, r2 := range []bool{false, true} {
+						pe := ddptypes.ParamTypesEqual(ddptypes.ParameterType{Type: a.typ, IsReference: r1}, ddptypes.ParameterType{Type: b.typ, IsReference: r2})
+						if pe != (eq[i][j] && r1 == r2) {
+							bad("ParamTypesEqual iff equivalent types and same reference-ness", a, b, nil, bs(pe), bs(eq[i][j] && r1 == r2))
+						}
+					}
+				}
+			}
+		}
+		if *sample > 0 {
+			r := newRng(*seed, 14)
+			for k := 0; k < *sample; k++ {
+				i, j := r.intn(n), r.intn(n)
+				if k%3 == 0 { // bias a third of the sample towards equivalent pairs
+					for t := 0; t < 50 && nodes[i].canon2 != nodes[j].canon2; t++ {
+						j = r.intn(n)
+					}
+				}
+				a, b := nodes[i], nodes[j]
+				emit("SAMPLE", tySample{A: a.term, B: b.term, Equal: ddptypes.Equal(a.typ, b.typ), Deep: ddptypes.DeepEqual(a.typ, b.typ),
+					NumA: ddptypes.IsNumeric(a.typ), ListA: ddptypes.IsList(a.typ), DefA: ddptypes.IsTypeDef(a.typ)})
+				st.SamplesDumped++
+			}
+		}
+	}
+
+	if *doTriples {
+		for i := 0; i < n; i++ {
+			if i%*parts != *part {
+				continue
+			}
+			for j := 0; j < n; j++ {
+				eij, dij := eq[i][j], deep[i][j]
+				rowj, rowjd := eq[j], deep[j]
+				for k := 0; k < n; k++ {
+					if eij && rowj[k] {
+						st.TriplesPrem++
+						st.RealCalls++
+						if !ddptypes.Equal(nodes[i].typ, nodes[k].typ) {
+							bad("Equal transitive", nodes[i], nodes[j], nodes[k], "a~b, b~c, not a~c", "a~c")
+						}
+					}
+					if dij && rowjd[k] {
+						st.TriplesPremD++
+						st.RealCalls++
+						if !ddptypes.DeepEqual(nodes[i].typ, nodes[k].typ) {
+							bad("DeepEqual transitive", nodes[i], nodes[j], nodes[k], "a~b, b~c, not a~c", "a~c")
+						}
+					}
+				}
+				st.Triples += n
+			}
+		}
+	}
+	emit("AGG", st)
+}
